@@ -132,14 +132,14 @@ theorem C01_phase1_dfs_then_test_total (g : G) (h : AdjL g) :
   obtain ⟨marked, hm⟩ := dfsMarked_total _ h2.toAdj.edgesWF
   refine ⟨marked.foldl G.reverse (removeTwoNodeCycles g), by simp [execDepthFirst, hm, bind, Except.bind, pure, Except.pure], ?_⟩
   -- marked edges are out-edges of the state, hence inside the edge store: the reversals keep consistency
-  have hin : ∀ e ∈ marked, e < (removeTwoNodeCycles g).edges.size := by
+  have hin : ∀ e ∈ marked, e ∈ (removeTwoNodeCycles g).elist := by
     intro e he
     obtain ⟨u, v, _, hmem, _, _⟩ := C14_dfs_minimal _ _ h2.toAdj.uniq marked hm e he
     unfold outE at hmem
     obtain ⟨e', he', heq⟩ := List.mem_map.1 hmem
     have : e' = e := by simpa using congrArg Prod.fst heq
     subst this
-    exact (h2.outs u e' he').1
+    exact h2.inEl u e' (List.mem_append.2 (Or.inr he'))
   exact hasCycles_total _ (adjL_foldl_reverse marked _ h2 hin).toAdj.edgesWF
 
 theorem C01_adj_implies_incWF : type_of% @Adj.incWF := @Adj.incWF
@@ -165,13 +165,13 @@ end Autog
 namespace Autog
 
 theorem adjL_foldl_cond_reverse (p : G → Nat → Prop) [∀ g e, Decidable (p g e)] : ∀ (l : List Nat) (g : G), AdjL g →
-    (∀ e ∈ l, e < g.edges.size) → AdjL (l.foldl (fun g e => if p g e then g.reverse e else g) g)
+    (∀ e ∈ l, e ∈ g.elist) → AdjL (l.foldl (fun g e => if p g e then g.reverse e else g) g)
   | [], g, h, _ => h
   | e :: l, g, h, hb => by
     simp only [List.foldl_cons]
     split
     · exact adjL_foldl_cond_reverse p l _ (adjL_reverse g h e (hb e (List.mem_cons_self ..)))
-        (fun x hx => by rw [G.reverse_esize]; exact hb x (List.mem_cons_of_mem _ hx))
+        (fun x hx => by rw [G.reverse_elist]; exact hb x (List.mem_cons_of_mem _ hx))
     · exact adjL_foldl_cond_reverse p l g h (fun x hx => hb x (List.mem_cons_of_mem _ hx))
 
 theorem adjL_execGreedy (g g' : G) (hA : AdjL g) (h : execGreedy g = .ok g') : AdjL g' := by
@@ -183,7 +183,7 @@ theorem adjL_execGreedy (g g' : G) (hA : AdjL g) (h : execGreedy g = .ok g') : A
     · cases h
     · simp only [Except.ok.injEq] at h
       subst h
-      exact adjL_foldl_cond_reverse _ g.elist g hA hA.el
+      exact adjL_foldl_cond_reverse _ g.elist g hA (fun _ hx => hx)
 
 theorem adjL_execDepthFirst (g g' : G) (hA : AdjL g) (h : execDepthFirst g = .ok g') : AdjL g' := by
   unfold execDepthFirst at h
@@ -199,7 +199,7 @@ theorem adjL_execDepthFirst (g g' : G) (hA : AdjL g) (h : execDepthFirst g = .ok
     obtain ⟨e', he', heq⟩ := List.mem_map.1 hmem
     have : e' = e := by simpa using congrArg Prod.fst heq
     subst this
-    exact (hA.outs u e' he').1
+    exact hA.inEl u e' (List.mem_append.2 (Or.inr he'))
 
 /-- adjacency consistency survives the whole of phase 1, whichever breaker runs -/
 theorem adjL_phase1 (alg : Nat) (g g' : G) (hA : AdjL g) (h : phase1 alg g = .ok g') : AdjL g' := by
